@@ -51,14 +51,29 @@ def alterCmd (t : Table) : AlterCmd → Except Err Table
   | .dropNotNull col =>
     if hasCol t col then .ok (mapCol t col (fun c => { c with notNull := false })) else .error eColumnNotFound
 
+def dropSchemaStep (guard : Bool) (c : Catalog) (n : String) : Except Err Catalog :=
+  if hasSchema c n then .ok { c with schemas := c.schemas.filter (·.name != n) }
+  else if guard then .ok c else .error eSchemaNotFound
+
+def dropTableStep (guard : Bool) (c : Catalog) (q : QName) : Except Err Catalog :=
+  match schemaOf c (ns c q) with
+  | none => if guard then .ok c else .error eSchemaNotFound
+  | some s =>
+    if hasRel s q.name then .ok (mapSchema c (ns c q) (fun s => { s with tables := s.tables.filter (·.name != q.name) }))
+    else if guard then .ok c else .error eRelationNotFound
+
+def dropTypeStep (guard : Bool) (c : Catalog) (q : QName) : Except Err Catalog :=
+  match schemaOf c (ns c q) with
+  | none => if guard then .ok c else .error eSchemaNotFound
+  | some s =>
+    if hasType s q.name then .ok (mapSchema c (ns c q) (fun s => { s with types := s.types.filter (·.name != q.name) }))
+    else if guard then .ok c else .error eTypeNotFound
+
 def step (c : Catalog) : DDL → Except Err Catalog
   | .createSchema n guard =>
     if hasSchema c n then (if guard then .ok c else .error eSchemaExists)
     else .ok { c with schemas := c.schemas ++ [{ name := n }] }
-  | .dropSchema names guard =>
-    names.foldlM (fun c n =>
-      if hasSchema c n then .ok { c with schemas := c.schemas.filter (·.name != n) }
-      else if guard then .ok c else .error eSchemaNotFound) c
+  | .dropSchema names guard => names.foldlM (dropSchemaStep guard) c
   | .createTable q guard cols =>
     match schemaOf c (ns c q) with
     | none => .error eSchemaNotFound
@@ -68,13 +83,7 @@ def step (c : Catalog) : DDL → Except Err Catalog
       else if !distinct (cols.map (·.name)) then .error eColumnExists
       else .ok (mapSchema c (ns c q) (fun s => { s with tables := s.tables ++
         [{ relSchema := q.schema, name := q.name, cols := cols.map mkColumn }] }))
-  | .dropTable rels guard =>
-    rels.foldlM (fun c q =>
-      match schemaOf c (ns c q) with
-      | none => if guard then .ok c else .error eSchemaNotFound
-      | some s =>
-        if hasRel s q.name then .ok (mapSchema c (ns c q) (fun s => { s with tables := s.tables.filter (·.name != q.name) }))
-        else if guard then .ok c else .error eRelationNotFound) c
+  | .dropTable rels guard => rels.foldlM (dropTableStep guard) c
   | .renameTable q newName =>
     match schemaOf c (ns c q) with
     | none => .error eSchemaNotFound
@@ -164,13 +173,7 @@ def step (c : Catalog) : DDL → Except Err Catalog
         else .ok (mapSchema c (ns c q) (fun s => mapType s q.name (fun
             | .enum n vs cm => .enum n (vs.map (fun v => if v == old then new else v)) cm
             | t => t)))
-  | .dropType tys guard =>
-    tys.foldlM (fun c q =>
-      match schemaOf c (ns c q) with
-      | none => if guard then .ok c else .error eSchemaNotFound
-      | some s =>
-        if hasType s q.name then .ok (mapSchema c (ns c q) (fun s => { s with types := s.types.filter (·.name != q.name) }))
-        else if guard then .ok c else .error eTypeNotFound) c
+  | .dropType tys guard => tys.foldlM (dropTypeStep guard) c
   | .commentSchema n text =>
     if hasSchema c n then .ok (mapSchema c n (fun s => { s with comment := text.getD "" })) else .error eSchemaNotFound
   | .commentTable q text =>
